@@ -10,7 +10,7 @@ independent of `common.lookups` is what makes a round-tripped proof verify ident
 import re
 
 from vf.extract import match_brace, ExtractError
-from vf.unit import Unit
+from vf.unit import Unit, project_on, unmap_iter_collect_general
 from units.pack import unmap_option
 
 PRELUDE = r'''
@@ -50,7 +50,7 @@ impl RowCounts {
 pub struct NonPrimitiveTableEntry { pub op_type: NpoTypeId, pub rows: usize, pub lanes: usize, pub public_values: Vec<BaseVal>, pub air_variant: u8 }
 pub struct BatchStarkProof {
     pub proof: BatchProof, pub table_packing: TablePacking, pub rows: RowCounts, pub ext_degree: usize, pub w_binomial: Option<BaseVal>,
-    pub alu_quintic_trinomial: bool, pub non_primitives: Vec<NonPrimitiveTableEntry>, pub stark_common: CommonData,
+    pub alu_quintic_trinomial: bool, pub non_primitives: Vec<NonPrimitiveTableEntry>, pub stark_common: CommonData, pub alu_variant: u8,
 }
 
 // ---- AIR descriptors: a rebuilt AIR is determined by the arguments it was built from
@@ -146,7 +146,7 @@ pub mod p3_batch_stark {
     { unimplemented!() }
 }
 
-pub struct BatchStarkProver { pub config: StarkCfg, pub table_packing: TablePacking, pub non_primitive_provers: Vec<TableProver>, pub debug_lookups: bool }
+pub struct BatchStarkProver { pub config: StarkCfg, pub table_packing: TablePacking, pub non_primitive_provers: Vec<TableProver>, pub debug_lookups: bool, pub alu_variant: u8 }
 
 // ---- the AIR list and public values verification must run on, as a function of metadata and the verifier's own parameters
 pub open spec fn prim_airs<const D: usize>(proof: BatchStarkProof, red: AluExtMulKind) -> Seq<CircuitTableAir<D>> {
@@ -200,7 +200,7 @@ def unmap_iter_collect(f):
 
 
 def build():
-    u = Unit('vrfy', ['C16'])
+    u = Unit('vrfy', ['C16', 'C10'])
     u.rlimit = 60
     u.assume('AIR constructors are determined by their arguments (ConstAir/PublicAir/AluAir::{new, from_reduction, with_*}); AluExtMulKind::resolve, the plugins and lookups_for_circuit_table_air are opaque functions of their arguments')
     u.assume('p3_batch_stark::verify_batch is outside the repository: its verdict is an uninterpreted function of everything it is handed; its precondition (lookup contexts = those of the AIRs) is the dependency contract')
@@ -283,7 +283,57 @@ def build():
             assert(lookups@ =~= lookups_of(airs@, self.config.zk)); // @@A:lookup_contexts_are_derived_from_the_rebuilt_airs_not_read_from_the_proof
             assert(airs@.len() == pvs_view(pvs@).len());
         }''')
+    # ---------------------------------------------------------------- prove[assemble]: which preprocessed binding the proof carries (C10 / C16)
+    pv = u.extract(B, r'impl<SC> BatchStarkProver<SC>', 'prove', 'BatchStarkProver::prove[assemble]')
+    TR = {'recomputed_data', 'effective_prover_data', 'stark_common', 'lanes_reduced'}
+    project_on(pv, r'let lanes_reduced\b', TR, 'prefix: trace/AIR construction per table; dropped statements bind trace_refs, instances, the debug-lookup check, non_primitives, padded row counts, effective_packing')
+    for old_, new_ in ((r'ProverData<SC>', 'ProverData'), (r'Val<SC>', 'BaseVal')):
+        pv.body = pv.body.replace(old_, new_)
+    unmap_iter_collect_general(pv)
+    pv.rewrite_re('R6', r'(\w+)\s*\.map\(\|(\w+)\| ([^()|]+)\)\s*\.unwrap_or_else\(\|\| ((?:[^()]|\([^()]*\))*)\)', r'(match \1 { Some(\2) => \3, None => \4 })', min_count=0)
+    PARAMS = [('prover_data', '&ProverData'), ('alu_trace_only_dummy', 'bool'), ('public_trace_only_dummy', 'bool'), ('packing', '&TablePacking'), ('trace_storage', '&Vec<TraceMatrix>'),
+              ('air_storage', '&Vec<CircuitTableAir<D>>'), ('instances', 'StarkInstances'), ('effective_packing', 'TablePacking'), ('const_rows_padded', 'usize'), ('public_rows_padded', 'usize'),
+              ('alu_rows_padded', 'usize'), ('w_binomial', 'Option<BaseVal>'), ('alu_quintic', 'bool'), ('non_primitives', 'Vec<NonPrimitiveTableEntry>')]
+    bound = set(re.findall(r'\blet\s+(?:mut\s+)?(\w+)', pv.body))
+    ps = [f'{n}: {t}' for n, t in PARAMS if re.search(r'(?<![.\w])' + n + r'\b', pv.body) and n not in bound]
+    free = set(re.findall(r'(?<![.\w:])([a-z_][a-z_0-9]*)\b(?!\s*[(!:])', re.sub(r'\|[^|]*\|', ' ', pv.body))) - bound - {n for n, _ in PARAMS} - {'self', 'let', 'if', 'else', 'match', 'mut', 'as', 'for', 'in', 'true', 'false', 'usize', 'proof', 'pd', 'm', 'common', 'config', 'alu_variant', 'len', 'return'}
+    free = {x for x in free if not re.search(r'\b' + x + r'\s*:', pv.body) and not re.search(r'\|[^|]*\b' + x + r'\b[^|]*\|', pv.body)}
+    if free - {'i_', 'x_', 'v_', 'w'} - {x for x in free if x.endswith('_')}:
+        raise ExtractError('BatchStarkProver::prove[assemble]: the projected tail reads prefix locals the slice signature does not know: ' + ', '.join(sorted(free)))
+    pv.set_sig('R11', 'fn prove_assemble<const D: usize>(&self, ' + ', '.join(ps) + ') -> Result<BatchStarkProof, BatchStarkProverError>', sliced=True)
+    pv.requires('realistic', 'self.config.zk <= 1')
+    pv.ensures('the_proof_carries_the_preprocessed_binding_it_was_made_with',
+               'ret matches Ok(p) ==> made_with(p.proof) == (p.stark_common.preprocessed, p.stark_common.lookups@)')
+    for mm in re.finditer(r'for (\w+) in 0\.\.trace_storage\.len\(\)', pv.body):
+        pv.loop(mm.group(0), invariants=[('t', 'self.config.zk <= 1')])
+        break
+    u.text('''verus! {
+pub struct ProverData { pub common: CommonData }
+pub struct TraceMatrix { pub h: usize }
+impl TraceMatrix { pub fn height(&self) -> (r: usize) ensures r == self.h { self.h } }
+#[verifier::external_body] pub fn log2_strict_usize(n: usize) -> (r: usize) ensures r < 64 { unimplemented!() }
+pub struct StarkInstances { pub id: int }
+impl ProverData {
+    /// outside the repository (p3_batch_stark): SOME prover data for these AIRs and degrees
+    #[verifier::external_body] pub fn from_airs_and_degrees<const D: usize>(cfg: &StarkCfg, airs: &Vec<CircuitTableAir<D>>, bits: &Vec<usize>) -> (r: ProverData) { unimplemented!() }
+}
+/// the preprocessed binding (commitment + lookup contexts) a batch proof was produced against
+pub uninterp spec fn made_with(p: BatchProof) -> (Option<GlobalPreprocessed>, Seq<Lookups>);
+pub mod p3_batch_stark_prove {
+    use super::*;
+    #[verifier::external_body]
+    pub fn prove_batch(cfg: &StarkCfg, instances: &StarkInstances, pd: &ProverData) -> (r: BatchProof)
+        ensures made_with(r) == (pd.common.preprocessed, pd.common.lookups@)
+    { unimplemented!() }
+}
+/// contract PROVED in unit `serde16` (clone_common_data copies the binding); assumed here
+#[verifier::external_body]
+pub fn clone_common_data(c: &CommonData) -> (r: CommonData) ensures r.preprocessed == c.preprocessed, r.lookups@ == c.lookups@ { unimplemented!() }
+impl RowCounts { #[verifier::external_body] pub fn new(a: [usize; 3]) -> (r: RowCounts) ensures r.0 == a { unimplemented!() } }
+}''')
+    pv.rewrite_re('R11', r'p3_batch_stark::prove_batch\(', 'p3_batch_stark_prove::prove_batch(', min_count=0)
     u.text('verus! {\nimpl BatchStarkProver {')
     u.emit(v, vis='')
+    u.emit(pv, vis='')
     u.text('}\n}')
     return u
